@@ -60,7 +60,11 @@ VX_OPTFIRST = FieldSet('vx_optfirst', q_opt=FM(TP, np.float64, required=False),
 # same field NAMES as vx_other, different definitions
 VX_OTHER2 = FieldSet('vx_other2', o_p=FM(T, str), o_s=FM(TP, np.float64))
 
-ALL = {'vx_other2': VX_OTHER2, 'vx_optfirst': VX_OPTFIRST, 'vx_simple': VX_SIMPLE, 'vx_species': VX_SPECIES, 'vx_modes': VX_MODES,
+# every field optional (a trajectory may leave the whole set unset)
+VX_ALLOPT = FieldSet('vx_allopt', a_p=FM(TP, np.float64, required=False),
+                     a_s=FM(T, np.int64, required=False), a_str=FM(T, str, required=False))
+
+ALL = {'vx_allopt': VX_ALLOPT, 'vx_other2': VX_OTHER2, 'vx_optfirst': VX_OPTFIRST, 'vx_simple': VX_SIMPLE, 'vx_species': VX_SPECIES, 'vx_modes': VX_MODES,
        'vx_other': VX_OTHER}
 
 SPECIES = list(Species)
